@@ -14,7 +14,7 @@ from ..model import AnalysisError, ClassInfo, src
 from ..report import Report, key_of
 from ..terms import has_opaque, pretty
 from ..types import Ctx
-from .common import TRUSTED_BASE, cfg_nodes_for, effects_of, inl, where
+from .common import TRUSTED_BASE, cfg_nodes_for, effects_of, inl, src_resolved, where
 
 
 def is_concrete(ci: ClassInfo) -> bool:
@@ -187,8 +187,12 @@ def run(A, R: Report, thorough: bool):
         isinstance(c, ast.Call) and isinstance(c.func, ast.Attribute) and c.func.attr == 'on_run_error' for c in ast.walk(n.ast))]
     resets = [n.id for n in cfg.nodes.values() if n.kind == 'stmt' and isinstance(n.ast, ast.Assign) and any(src(t) == 'self._data' for t in n.ast.targets)
               and isinstance(n.ast.value, ast.Constant) and n.ast.value.value is None]
-    falsy = [n.id for n in cfg.nodes.values() if n.kind == 'edge' and ((src(n.ast) == 'self._data' and n.label == 'F') or (src(n.ast) == 'self._data is None' and n.label == 'T')
-                                                                        or (src(n.ast) == 'self._data is not None' and n.label == 'F'))]
+    falsy = []
+    for n in cfg.nodes.values():
+        if n.kind == 'edge':
+            t_ = src_resolved(A, fdata, n.ast)
+            if (t_ == 'self._data' and n.label == 'F') or (t_ == 'self._data is None' and n.label == 'T') or (t_ == 'self._data is not None' and n.label == 'F'):
+                falsy.append(n.id)
     for call in protected:
         for cn in cfg_nodes_for(cfg, call):
             exc_succ = cfg.succ_by_label(cn.id, 'exc')
@@ -225,9 +229,9 @@ def run(A, R: Report, thorough: bool):
         a = n.ast
         if isinstance(a, ast.Call) and src(a.func) in ('isinstance', 'custom_isinstance') and a.args and src(a.args[0]) == rp:
             return True
-        if isinstance(a, ast.Compare) and 'typing.Generator' in src(a) and 'data_type' in src(a):
+        if isinstance(a, ast.Compare) and 'typing.Generator' in src(a) and 'data_type' in src_resolved(A, fpr, a):
             return True
-        if isinstance(a, ast.Call) and src(a.func) == 'issubclass' and len(a.args) == 2 and 'InMemoryData' in src(a.args[1]) and 'data_class' in src(a.args[0]):
+        if isinstance(a, ast.Call) and src(a.func) == 'issubclass' and len(a.args) == 2 and 'InMemoryData' in src(a.args[1]) and 'data_class' in src_resolved(A, fpr, a.args[0]):
             return True
         return False
 
